@@ -7,6 +7,27 @@ VERIF = os.path.dirname(os.path.dirname(os.path.abspath(__file__)))
 ALL = ["C%02d" % i for i in range(1, 21)]
 
 CHECKS = {
+    "C01": dict(
+        category="model_checking",
+        text="Switchover.tla models performSwitchover at external-call granularity on the MySQL/ZooKeeper environment spec; "
+             "TLC checks promotion safety exhaustively (3 hosts, 2 txns, all GTID shapes and request kinds, 1 spurious "
+             "failure, 1 node loss). The REAL procedure runs on wire-level fakes for a shape x request x policy grid with "
+             "a fault (fail/hang/node loss) at call boundaries from a dry-run census; every promotion event and every "
+             "freeze attempt is projected to a row and TLC evaluates the same ClusterProps operators on the observed "
+             "ground truth (PromoRows.tla). Only the latter can raise a violation.",
+        design_ref="DESIGN.md 7/C01",
+        note="E1-E6 (fake MySQL semantics), TLC, synctest; weak reading: members count by ground truth dead or alive",
+        technique="TLA+ model of the switchover (TLC exhaustive) + trace/row validation of real runs on fakes by TLC"),
+    "C07": dict(
+        category="fault_enumeration",
+        text="The managing process is killed, or cut from ZooKeeper, immediately after each external call of a "
+             "switchover activation (cut points from a dry-run census) for 2-4 node shapes, all request kinds, both "
+             "successor choices; after 30 rounds the final ground truth is judged by TLC against the end-state "
+             "operators of ClusterProps (request resolved, one writable recorded master, replicas follow, no "
+             "acknowledged loss). Switchover.tla with ManagerCrash at every label is model-checked alongside.",
+        design_ref="DESIGN.md 7/C07",
+        note="E1-E7; K=30 rounds; two classes of genuine defects are listed in known_findings.jsonl",
+        technique="crash-point enumeration on real code over fakes; end states validated by TLC; TLA+ model with ManagerCrash"),
     "C12": dict(
         category="model_checking",
         text="Closed form proved for all n,w with TLAPS on Quorum.tla; TLC checks the clauses exhaustively for "
